@@ -236,6 +236,12 @@ type verifC09Case struct {
 	Spill   int         `json:"spill_batch"`
 	WriteTo bool        `json:"write_to"`
 	Dest    []int       `json:"dest"`
+	// OpenFault: before the combiner is read, a spill file that cannot be opened (dangling symbolic
+	// link) is planted in its spill directory: reading must fail or succeed, and either way no spill
+	// directory may remain.
+	OpenFault bool `json:"open_fault,omitempty"`
+	// Discard: the combiner is discarded instead of being read.
+	Discard bool `json:"discard,omitempty"`
 }
 
 var verifC09ValTypes = []int{0, 2, 1, 7, 4}
@@ -265,6 +271,8 @@ func verifC09Combiner(u int) interface{} {
 	}
 	panic("no combiner")
 }
+
+var verifC09Faulted int
 
 func verifC09SpillDirs() []string {
 	m, _ := filepath.Glob(filepath.Join(os.TempDir(), "spiller-*"))
@@ -313,6 +321,48 @@ func verifC09Run(c verifC09Case) (spills int64, err error) {
 	}
 	spills = combineDiskSpills.Value() - spills0
 	var rows []vgen.Row
+	if c.Discard {
+		if e := comb.Discard(); e != nil {
+			return spills, fmt.Errorf("Discard: %v", e)
+		}
+		if d := verifC09SpillDirs(); len(d) > 0 {
+			return spills, fmt.Errorf("spill directories remain after the combiner was discarded: %v", d)
+		}
+		return spills, nil
+	}
+	faulted := false
+	if c.OpenFault && spills > 0 {
+		if dirs := verifC09SpillDirs(); len(dirs) == 1 {
+			sub, _ := filepath.Glob(filepath.Join(dirs[0], "*"))
+			where := dirs[0]
+			if len(sub) > 0 {
+				if fi, e := os.Stat(sub[0]); e == nil && fi.IsDir() {
+					where = sub[0]
+				}
+			}
+			if os.Symlink(filepath.Join(where, "does-not-exist"), filepath.Join(where, "spill-zzverif")) == nil {
+				faulted = true
+			}
+		}
+	}
+	if faulted {
+		var e error
+		if c.WriteTo {
+			var buf bytes.Buffer
+			_, e = comb.WriteTo(ctx, sliceio.NewEncodingWriter(&buf))
+		} else {
+			var r sliceio.Reader
+			r, e = comb.Reader()
+			if e == nil {
+				_, _ = s.Drain(ctx, r, c.Dest, 20*len(want)+400)
+			}
+		}
+		if d := verifC09SpillDirs(); len(d) > 0 {
+			return spills, fmt.Errorf("spill directories remain after reading the combiner (a spill file could not be opened; read error: %v): %v", e, d)
+		}
+		verifC09Faulted++
+		return spills, nil
+	}
 	if c.WriteTo {
 		var buf bytes.Buffer
 		n, e := comb.WriteTo(ctx, sliceio.NewEncodingWriter(&buf))
@@ -372,7 +422,7 @@ const verifC09RandName = "TestVerifC09CombinerRandom"
 
 func TestVerifC09CombinerRandom(t *testing.T) {
 	rec := vt.New("C09", "combiner-random",
-		"rapid: newCombiner over schemas with 1..3 key columns (13 keyable types) and a value column with a commutative, associative combiner; 1..12 batches of 0..300 rows with key cardinality 1..24 per column (skewed by small cardinalities); spill threshold 1..200 keys, table/scratch size (vector size) {1,2,4,8,128}, spill batch {1,2,128}; read through Reader() or WriteTo()+decode with destination-size schedules; oracle: one row per distinct key, ascending key order, value = fold, no spiller directory left; non-trivial = at least one spill to disk; distinct by case hash")
+		"rapid: newCombiner over schemas with 1..3 key columns (13 keyable types) and a value column with a commutative, associative combiner; 1..12 batches of 0..300 rows with key cardinality 1..24 per column (skewed by small cardinalities); spill threshold 1..200 keys, table/scratch size (vector size) {1,2,4,8,128}, spill batch {1,2,128}; read through Reader() or WriteTo()+decode with destination-size schedules, or discarded, or read after a spill file that cannot be opened (dangling symbolic link) was planted in the spill directory; oracle: one row per distinct key, ascending key order, value = fold, no spiller directory left in every one of these endings; non-trivial = at least one spill to disk; distinct by case hash")
 	docs, only := vt.Replays(verifC09RandName)
 	for _, d := range docs {
 		var c verifC09Case
@@ -407,9 +457,22 @@ func TestVerifC09CombinerRandom(t *testing.T) {
 		c.Spill = rapid.SampledFrom([]int{1, 2, 128}).Draw(rt, "spillbatch")
 		c.WriteTo = rapid.Bool().Draw(rt, "writeto")
 		c.Dest = vgen.GenDestSizes(rt, 200)
+		switch rapid.IntRange(0, 7).Draw(rt, "ending") {
+		case 0:
+			c.OpenFault = true
+		case 1:
+			c.Discard = true
+		}
 		b, _ := json.Marshal(c)
+		faulted0 := verifC09Faulted
 		spills, err := verifC09Run(c)
 		classes := []string{}
+		if verifC09Faulted > faulted0 {
+			classes = append(classes, "spill-file-open-fault")
+		}
+		if c.Discard {
+			classes = append(classes, "discarded")
+		}
 		if spills > 0 {
 			classes = append(classes, "spilled")
 		}
